@@ -56,7 +56,7 @@ def case_strategy():
             "iv": st.booleans(),
             "nest": st.integers(0, 2),
             "pre": st.sampled_from(["absent", "empty", "stale", "stale"]),
-            "caller": st.sampled_from(["doc", "tag", "list"]),
+            "caller": st.sampled_from(["doc", "tag", "list", "html", "html-doc"]),
             "missing": st.lists(st.integers(0, 5), max_size=2),
             "fault": st.booleans(),
             "fault_later": st.booleans(),
@@ -310,6 +310,11 @@ def _save(h, dep, case, htmlfile, libdir, iv):
         return h.HTMLDocument(content, lang="en").save_html(htmlfile, libdir=libdir, include_version=iv)
     if case["caller"] == "tag":
         return content.save_html(htmlfile, libdir=libdir, include_version=iv)
+    if case["caller"] in ("html", "html-doc"):
+        page = h.Tag("html", h.Tag("head", h.Tag("title", "t")), h.Tag("body", content))
+        if case["caller"] == "html":
+            return page.save_html(htmlfile, libdir=libdir, include_version=iv)
+        return h.HTMLDocument(page).save_html(htmlfile, libdir=libdir, include_version=iv)
     return h.TagList("lead", content).save_html(htmlfile, libdir=libdir, include_version=iv)
 
 
@@ -339,7 +344,7 @@ CLAUSES = [
         quick=600,
         thorough=5000,
         shards_quick=4,
-        required=("fault", "fault-after-success", "src:dir", "src:pkg", "src:url", "src:none", "src:libtest", "all_files", "pre:stale", "caller:tag", "caller:list", "caller:doc"),
+        required=("fault", "fault-after-success", "src:dir", "src:pkg", "src:url", "src:none", "src:libtest", "all_files", "pre:stale", "caller:tag", "caller:list", "caller:doc", "caller:html"),
         rule="see RULE",
     ),
 ]
